@@ -472,6 +472,66 @@ fn selections(cands: &[Secret], max: usize) -> Vec<Vec<Secret>> {
     out
 }
 
+/// RSA recipients: ciphertexts whose integer value has leading zero octets are stored as shorter
+/// MPIs and must decrypt like any other.
+#[derive(Clone, Debug, Hash, Serialize, Deserialize)]
+pub struct RsaCase {
+    pub v6: bool,
+    /// first rng seed of a block of 256 encryptions
+    pub block: u64,
+}
+
+fn run_rsa(c: &RsaCase) -> Outcome {
+    use pgp::packet::PublicKeyEncryptedSessionKey;
+    use pgp::types::{DecryptionKey, EskType, PkeskBytes};
+    let cert = common::cert(KeyKind::Rsa2048V4, 3);
+    let sub = &cert.secret_subkeys[0].key;
+    let session: Vec<u8> = (0..16u8).map(|i| i.wrapping_mul(11).wrapping_add(5)).collect();
+    let raw: pgp::composed::RawSessionKey = session.clone().into();
+    let mut o = Outcome::ok("");
+    let (mut short, mut tried) = (0u64, 0u64);
+    for seed in c.block * 256..(c.block + 1) * 256 {
+        let pk = if c.v6 {
+            PublicKeyEncryptedSessionKey::from_session_key_v6(crate::engine::rng(0x5A00 + seed), &raw, sub.public_key())
+        } else {
+            PublicKeyEncryptedSessionKey::from_session_key_v3(crate::engine::rng(0x5A00 + seed), &raw, pgp::crypto::sym::SymmetricKeyAlgorithm::AES128, sub.public_key())
+        };
+        let Ok(pk) = pk else {
+            o.push("C18:rsa:encrypt-error", format!("seed {seed}"));
+            break;
+        };
+        let Ok(values) = pk.values() else { continue };
+        let len = match values {
+            PkeskBytes::Rsa { mpi } => mpi.as_ref().len(),
+            _ => 256,
+        };
+        // every short ciphertext, and every 64th ordinary one as the control
+        if len >= 256 && seed % 64 != 0 {
+            continue;
+        }
+        tried += 1;
+        if len < 256 {
+            short += 1;
+        }
+        let typ = if c.v6 { EskType::V6 } else { EskType::V3_4 };
+        match sub.decrypt(&Password::empty(), values, typ) {
+            Ok(Ok(sk)) => {
+                let k = match &sk {
+                    pgp::composed::PlainSessionKey::V3_4 { key, .. } | pgp::composed::PlainSessionKey::V6 { key } | pgp::composed::PlainSessionKey::V5 { key } => key.as_ref().to_vec(),
+                };
+                if k != session {
+                    o.push("C18:rsa:recipient-decrypts-to-another-key", format!("seed {seed}, ciphertext MPI of {len} octets"));
+                }
+            }
+            Ok(Err(e)) | Err(e) => o.push("C18:recipient-cannot-decrypt:rsa-ciphertext", format!("seed {seed}: RSA ciphertext MPI of {len} octets (modulus 256): {e}")),
+        }
+    }
+    o.evals = tried.max(1);
+    o.class = if short > 0 { "short-and-ordinary-ciphertexts-decrypt".into() } else { "ordinary-ciphertexts-decrypt".into() };
+    o.nontrivial = short > 0;
+    o
+}
+
 pub fn check(ctx: &Ctx) {
     let quick = ctx.tier == Tier::Quick;
     let v4_keys = [KeyKind::Ed25519V4, KeyKind::Ed25519LegacyV4, KeyKind::EcdsaP256V4, KeyKind::Rsa2048V4];
@@ -645,6 +705,20 @@ pub fn check(ctx: &Ctx) {
         fa.into_par_iter(),
         run_false_accept,
     );
+    common::cert(KeyKind::Rsa2048V4, 3);
+    let mut rc = Vec::new();
+    for v6 in [false, true] {
+        for block in 0..if quick { 6u64 } else { 40 } {
+            rc.push(RsaCase { v6, block });
+        }
+    }
+    ctx.run_space(
+        "rsa_ciphertext_lengths",
+        true,
+        "an RSA-2048 recipient x 1536 (thorough 10240) encryptions per PKESK version with consecutive rng seeds: EVERY ciphertext whose integer has leading zero octets (a shorter MPI; about 1 in 256) and every 64th ordinary one is decrypted by the recipient key and must give the session key",
+        rc.into_par_iter(),
+        run_rsa,
+    );
     ctx.assume("RingResult slots are not part of the oracle (the property does not speak of them)");
 }
 
@@ -652,6 +726,7 @@ pub fn replay(space: &str, case: &Value) -> Option<Outcome> {
     match space {
         "recipient_sets_x_presented_secrets" => replay_as(case, run),
         "skesk_v4_false_accept" => replay_as(case, run_false_accept),
+        "rsa_ciphertext_lengths" => replay_as(case, run_rsa),
         _ => None,
     }
 }
